@@ -34,22 +34,27 @@
       finding): a validated `a.wait` whose companion was rewritten for a newer version is
       ignored by Recover.
     * (N2): `stale_writer_breaks_integrity` (Props/C01, known finding S1).
-    * (N3): `logged_delivered_again` — ops: `prepare a 2 0` / `recv a - - 2 b1.2 0 2 1.2 0` /
-      `settle 0` (delivered, logged) / `consume a` / `prepare a 2 1` /
-      `cut 3 recv a - - 2 b1.2 0 2 1.2 1` (the last part again after a lost acknowledgement; the
-      crash is after the companion's rename, before the duplicate branch removes `a.part`) /
-      `recover 5` / `settle 6` / `observe`: `final{a=1.2}` again and two log lines. Recover
-      validates the complete `a.part` WITHOUT looking at the cache entry its own buildCache
-      loaded from the log, queues it, and the finalize handler logs and delivers `a` a second
-      time. Replayed on the real receiver: same answers (the harness oracle `logged-twice`
-      tolerates one repeated record per crash, so it does not fire).
+    * (N3): FIXED DEFECT `logged_delivered_again_orig` (about `recoverEffectsOrig`, the code as
+      found) — ops: `prepare a 2 0` / `recv a - - 2 b1.2 0 2 1.2 0` / `settle 0` (delivered,
+      logged) / `consume a` / `prepare a 2 1` / `cut 3 recv a - - 2 b1.2 0 2 1.2 1` (the last part
+      again after a lost acknowledgement; the crash is after the companion's rename, before the
+      duplicate branch removes `a.part`) / `recover 5` / `settle 6` / `observe`: `final{a=1.2}`
+      again and two log lines. Recover validated the complete `a.part` WITHOUT looking at the
+      cache entry its own buildCache had loaded from the log. Repaired by `fix:` "Recover
+      validated, logged and delivered again a duplicate of a version that is already in the
+      receive log" (validate loop: "Ignoring duplicate (recover)"); model: `recoverDup`,
+      `recoverValOne`; theorem `recover_skips_logged_duplicate`; the same crash image after
+      the repair: `logged_duplicate_dropped`. What is left of (N3)'s falsity is cache ageing:
+      `logged_delivered_again_unremembered` (the log record is older than the days Recover's
+      cache build reads; C05's `Remembered`).
   What is proved (all states / all histories, no bound on anything):
     * `C06_trichotomy`: for EVERY state `s` (reachable or not), every walk list without
       duplicates and every `n` in it: class (A) ⇒ `ClassA` (nothing cached but the log record,
       nothing queued; a companion that remains has its `.part`, no `.full`, is incomplete; a
-      `.full`/`.wait` that remains is unrecorded), class (B) ⇒ `ClassB` (the complete file is
-      hashed again; equal ⇒ held as `<n>.wait`, different ⇒ refused, `<n>.full` kept, status
-      "failed"), class (C) ⇒ `OutHeld`. `post_exactly_one`: exactly one of the three outcomes.
+      `.full`/`.wait` that remains is unrecorded), class (B) ⇒ `ClassB` (a remembered, logged
+      version is dropped: `.full` and companion removed, nothing queued; otherwise the complete
+      file is hashed again; equal ⇒ held as `<n>.wait`, different ⇒ refused, `<n>.full` kept,
+      status "failed"), class (C) ⇒ `OutHeld`. `post_exactly_one`: exactly one of the three outcomes.
     * `classA_full_partial`: with `RecReachableOk` (hypotheses of `record_sound`) and
       `Accompanied` (every `.full` has a companion, every `.wait` the companion of its hash)
       class (A) is `ClassAFull` (the statement as given).
@@ -58,12 +63,14 @@
       companion gone) or parks it behind its predecessor (status "waiting", nothing durable
       changes).
     * `C06_N1_partial` (+ `C06_N1_status`), `C06_N2_partial` (+ `C06_N2_after_recovery`),
-      `C06_N3_partial` and the bundle `C06_classification_partial`.
+      `C06_N3_partial` (hypothesis left: `Remembered`), `recover_skips_logged_duplicate`
+      (+ `_window`) and the bundle `C06_classification_partial`.
   Not proved: "every logged version is in the final directory, was consumed, or is still held"
   as an invariant over whole runs (the model has no ghost for consumption; the harness oracle
   `validated-lost` checks it on the real receiver).
 -/
 import StsModel.Lemmas.StageClass
+import StsModel.Lemmas.StageOrig
 
 namespace Sts.Stage
 open Dur
@@ -171,15 +178,23 @@ def ClassA (H : Body → String) (t : State) (n : Name) : Prop :=
   (∀ i c, t.disk.wait n = some i → t.disk.cmp n = some c → H (t.disk.body i) ≠ c.hash) ∧
   ∀ c, t.disk.cmp n = some c → (∃ i, t.disk.part n = some i) ∧ isComplete c.parts c.size = false
 
-/-- (B): the complete file (`<n>.full`, else the complete `<n>.part`, inode `i` at the crash
-    point) is hashed again. Equal to the companion's hash: `n` is held, the file is `<n>.wait`.
+/-- (B): a complete file is staged (`<n>.full`, else the complete `<n>.part`, inode `i` at the
+    crash point). After `fix:` "Ignoring duplicate (recover)": if the cache entry Recover's own
+    cache build loaded from the receive log is logged with the companion's hash (`Remembered`),
+    the staged copy is a duplicate of a delivered version and is dropped — `<n>.full` and the
+    companion are removed, nothing is queued, the version is in the log. Otherwise the file is
+    hashed again. Equal to the companion's hash: `n` is held, the file is `<n>.wait`.
     Different: `n` is refused (cache state failed ⇒ status answer "failed" ⇒ the sender sends
     it again), the file stays `<n>.full`. -/
-def ClassB (H : Body → String) (s t : State) (n : Name) (c : Cmp) : Prop :=
+def ClassB (H : Body → String) (s t : State) (now : Int) (names : List Name) (n : Name) (c : Cmp) :
+    Prop :=
   ∃ i, revalIno s.disk n = some i ∧
-    ((H (s.disk.body i) = c.hash ∧ OutHeld H t n c ∧ t.disk.wait n = some i ∧ t.disk.full n = none) ∨
-     (H (s.disk.body i) ≠ c.hash ∧ Refused H t n c ∧ t.disk.full n = some i ∧
-       t.disk.wait n = s.disk.wait n))
+    ((Remembered H s now names n c ∧ Unlisted t n ∧ t.disk.full n = none ∧ t.disk.cmp n = none ∧
+       LoggedV s.disk n c.hash) ∨
+     (¬ Remembered H s now names n c ∧ H (s.disk.body i) = c.hash ∧ OutHeld H t n c ∧
+       t.disk.wait n = some i ∧ t.disk.full n = none) ∨
+     (¬ Remembered H s now names n c ∧ H (s.disk.body i) ≠ c.hash ∧ Refused H t n c ∧
+       t.disk.full n = some i ∧ t.disk.wait n = s.disk.wait n))
 
 /-- the trichotomy at full strength -/
 def C06Trichotomy : Prop :=
@@ -187,7 +202,7 @@ def C06Trichotomy : Prop :=
     n ∈ names → names.Nodup →
     match crashClass H s.disk n with
     | .partial_ => ClassAFull (recovered H s now names) n
-    | .revalidate c => ClassB H s (recovered H s now names) n c
+    | .revalidate c => ClassB H s (recovered H s now names) now names n c
     | .held c => OutHeld H (recovered H s now names) n c
 
 /-- `n` is in condition (C) for the version with hash `h`: held, or in the receive log -/
@@ -235,7 +250,7 @@ theorem C06_trichotomy (H : Body → String) (s : State) (now : Int) (names : Li
     (hn : n ∈ names) (hnd : names.Nodup) :
     match crashClass H s.disk n with
     | .partial_ => ClassA H (recovered H s now names) n
-    | .revalidate c => ClassB H s (recovered H s now names) n c
+    | .revalidate c => ClassB H s (recovered H s now names) now names n c
     | .held c => OutHeld H (recovered H s now names) n c := by
   rw [recovered_eq]
   cases hcls : crashClass H s.disk n with
@@ -282,11 +297,14 @@ theorem C06_trichotomy (H : Body → String) (s : State) (now : Int) (names : Li
   | revalidate c =>
     simp only
     have hw := (crashClass_revalidate H s.disk n c).mp hcls
-    obtain ⟨i, hi, hpass, hfail, _⟩ := recover_validate_outcome H s now names n c hn hnd hw
+    obtain ⟨i, hi, hdrop, hpass, hfail, _⟩ := recover_validate_outcome H s now names n c hn hnd hw
     refine ⟨i, hi, ?_⟩
-    by_cases hh : H (s.disk.body i) = c.hash
-    · exact Or.inl ⟨hh, hpass hh⟩
-    · exact Or.inr ⟨hh, hfail hh⟩
+    by_cases hrem : Remembered H s now names n c
+    · obtain ⟨hun, hf, hc, _⟩ := hdrop hrem
+      exact Or.inl ⟨hrem, hun, hf, hc, hrem.logged⟩
+    · by_cases hh : H (s.disk.body i) = c.hash
+      · exact Or.inr (Or.inl ⟨hrem, hh, hpass hrem hh⟩)
+      · exact Or.inr (Or.inr ⟨hrem, hh, hfail hrem hh⟩)
   | held c =>
     simp only
     exact (recover_finalize_outcome H s now names n c hn hnd ((crashClass_held H s.disk n c).mp hcls)).1
@@ -318,7 +336,8 @@ theorem post_exactly_one (H : Body → String) (s : State) (now : Int) (names : 
     exact Or.inl ⟨htri.1, hU htri.1⟩
   | revalidate c =>
     simp only [hcls] at htri
-    obtain ⟨i, _, ⟨_, hheld, _⟩ | ⟨_, href, _⟩⟩ := htri
+    obtain ⟨i, _, ⟨_, hun, _⟩ | ⟨_, _, hheld, _⟩ | ⟨_, _, href, _⟩⟩ := htri
+    · exact Or.inl ⟨hun, hU hun⟩
     · exact Or.inr (Or.inr ⟨⟨c, hheld⟩, hO c hheld⟩)
     · exact Or.inr (Or.inl ⟨⟨c, href⟩, hR c href⟩)
   | held c =>
@@ -507,12 +526,74 @@ theorem C06N2_false : ¬ C06N2 := C01_integrity_full_false
 
 /-! ## (N3) a logged version is not delivered again -/
 
-/-- **(N3), partial**: hypothesis `hnv` — the crash image does not hold a complete reception
-    (`.full`, or complete `.part`) of the logged version itself. Without it the statement is
-    false: `logged_delivered_again`. No hypothesis on `s` (it need not be reachable). -/
+/-- **the repair: a staged duplicate of a remembered, logged version is not delivered again.**
+    For EVERY state `s`: if the crash image holds a complete reception of `n` with companion `c`
+    (class (B)) and the cache entry that Recover's own cache build loads from the receive log is
+    logged with the companion's hash (`Remembered`; a disk-level sufficient condition is
+    `remembered_of_window`), then after recovery nothing is queued or parked for `n`, the staged
+    copy and its companion are gone, the status answer is "passed", and Recover has not touched
+    the log or the final directory: there is nothing the finalize handler could deliver. -/
+theorem recover_skips_logged_duplicate (H : Body → String) (s : State) (now : Int)
+    (names : List Name) (n : Name) (c : Cmp) (hn : n ∈ names) (hnd : names.Nodup)
+    (hcls : crashClass H s.disk n = .revalidate c) (hrem : Remembered H s now names n c) :
+    LoggedV s.disk n c.hash ∧
+    Unlisted (recovered H s now names) n ∧
+    (∀ q, (n, q) ∉ (recovered H s now names).mem.fq) ∧
+    (recovered H s now names).disk.full n = none ∧ (recovered H s now names).disk.cmp n = none ∧
+    (recovered H s now names).disk.wait n = s.disk.wait n ∧
+    statusAnswer (recovered H s now names) n = 2 ∧
+    (recovered H s now names).disk.log = s.disk.log ∧
+    (recovered H s now names).disk.final = s.disk.final := by
+  have hw := (crashClass_revalidate H s.disk n c).mp hcls
+  obtain ⟨i, _, hdrop, _, _, _⟩ := recover_validate_outcome H s now names n c hn hnd hw
+  obtain ⟨hun, hf, hc, hwt, e, he, hst, _⟩ := hdrop hrem
+  obtain ⟨_, hlog, hfin, _⟩ := recover_keeps H (crash s) now names
+  refine ⟨hrem.logged, hun, hun.2.1, hf, hc, hwt, ?_, hlog, hfin⟩
+  rw [recovered_eq]
+  simp [statusAnswer, stateOf, he, hst]
+
+/-- the same with the disk-level condition: the receive log has a record of `n` in the day files
+    Recover's cache build reads (from the oldest companion's mtime − 1 day to now) and every
+    record of `n` there carries the companion's hash. -/
+theorem recover_skips_logged_duplicate_window (H : Body → String) (s : State) (now : Int)
+    (names : List Name) (n : Name) (c : Cmp) (hn : n ∈ names) (hnd : names.Nodup)
+    (hcls : crashClass H s.disk n = .revalidate c)
+    (hex : ∃ r ∈ buildRecs s (minMtime s.disk now names - 86400) now, r.name = n)
+    (hone : ∀ r ∈ buildRecs s (minMtime s.disk now names - 86400) now, r.name = n → r.hash = c.hash) :
+    Unlisted (recovered H s now names) n ∧ (recovered H s now names).disk.full n = none ∧
+    (recovered H s now names).disk.cmp n = none ∧ statusAnswer (recovered H s now names) n = 2 := by
+  obtain ⟨_, h1, _, h2, h3, _, h4, _⟩ := recover_skips_logged_duplicate H s now names n c hn hnd hcls
+    (remembered_of_window H s now names n c hex hone)
+  exact ⟨h1, h2, h3, h4⟩
+
+/-- … and with the sharpest disk-level condition (after `fix:` "buildCache kept the oldest of
+    several records of a name"): the LAST record of `n` in the day files Recover's cache build
+    reads carries the companion's hash — earlier versions of the name may be in the log. -/
+theorem recover_skips_logged_duplicate_last (H : Body → String) (s : State) (now : Int)
+    (names : List Name) (n : Name) (c : Cmp) (hn : n ∈ names) (hnd : names.Nodup)
+    (hcls : crashClass H s.disk n = .revalidate c) (pre post : List LogRec) (r : LogRec)
+    (hsplit : buildRecs s (minMtime s.disk now names - 86400) now = pre ++ r :: post)
+    (hrn : r.name = n) (hpost : ∀ r' ∈ post, r'.name ≠ n) (hh : r.hash = c.hash) :
+    Unlisted (recovered H s now names) n ∧ (recovered H s now names).disk.full n = none ∧
+    (recovered H s now names).disk.cmp n = none ∧ statusAnswer (recovered H s now names) n = 2 := by
+  obtain ⟨_, h1, _, h2, h3, _, h4, _⟩ := recover_skips_logged_duplicate H s now names n c hn hnd hcls
+    (remembered_of_last H s now names n c pre post r hsplit hrn hpost hh)
+  exact ⟨h1, h2, h3, h4⟩
+
+/-- **(N3), partial — after the repair.** What remains as a hypothesis is `hrem`: IF the crash
+    image holds a complete reception (class (B), companion `c`) of the very version that is
+    logged (`c.hash = r.hash`), THEN Recover's cache build remembers it (`Remembered`: the cache
+    entry loaded from the receive log carries that hash — true when a record of `n` lies in the
+    day files from the oldest companion's mtime − 1 day to now and the LAST record of `n` there
+    has that hash, `remembered_of_last`). This is C05's `Remembered` (cache ageing): a version
+    whose record is older than the cache reaches is taken again by Receive as well. Without
+    `hrem` the statement is still false: `logged_delivered_again_unremembered`. Before the repair
+    it was false also for remembered versions: `logged_delivered_again_orig`. No hypothesis on
+    `s` (it need not be reachable). -/
 theorem C06_N3_partial (H : Body → String) (s : State) (now : Int) (names : List Name) (n : Name)
     (hn : n ∈ names) (hnd : names.Nodup) (r : LogRec) (hr : r ∈ s.disk.log) (hrn : r.name = n)
-    (hnv : ∀ c, crashClass H s.disk n = .revalidate c → c.hash ≠ r.hash) :
+    (hrem : ∀ c, crashClass H s.disk n = .revalidate c → c.hash = r.hash →
+      Remembered H s now names n c) :
     (∀ q, (n, q) ∈ (recovered H s now names).mem.fq → q.hash = r.hash →
       ∃ i, s.disk.wait n = some i ∧ H (s.disk.body i) = r.hash) ∧
     (crashClass H s.disk n = .partial_ → ∀ now2 frm, Reaches s now frm names r →
@@ -526,8 +607,9 @@ theorem C06_N3_partial (H : Body → String) (s : State) (now : Int) (names : Li
       exact absurd hq (htri.1.2.1 q)
     | revalidate c =>
       simp only [hcls] at htri
-      obtain ⟨i, _, ⟨_, hheld, _⟩ | ⟨_, href, _⟩⟩ := htri
-      · exact absurd ((hheld.2.2.2.2 q hq).1.symm.trans hqh) (hnv c hcls)
+      obtain ⟨i, _, ⟨_, hun, _⟩ | ⟨hnr, _, hheld, _⟩ | ⟨_, _, href, _⟩⟩ := htri
+      · exact absurd hq (hun.2.1 q)
+      · exact absurd (hrem c hcls ((hheld.2.2.2.2 q hq).1.symm.trans hqh)) hnr
       · exact absurd hq (href.2.2.2.1 q)
     | held c =>
       simp only [hcls] at htri
@@ -596,14 +678,16 @@ def againRun : List Ev := goodRun ++
   [.op (.prepare "a" 2 1), .op (.recvOpen 3 "a"), .op (.recvWrite 3 0 [1, 2] 1),
    .cutOp 2 (.record "a" metaA 0 2 1)]
 
-/-- **witness, (N3)**: a version that is logged and delivered is validated again by Recover (the
-    validate list ignores the cache entry that Recover's own cache build loaded from the log),
-    queued, and delivered and logged a second time by the finalize handler. Replay (component
-    `stage`): prepare a 2 / recv a [0,2) / process a / finh a / prepare a 2 / recv-open+write a /
-    `cut 2 record a [0,2)` / recover / finh a (or settle) / observe: two log lines for "a". -/
-theorem logged_delivered_again :
+/-- **witness of the defect (code as found, `recoverEffectsOrig`)**: a version that is logged
+    and delivered was validated again by Recover (the validate loop ignored the cache entry that
+    Recover's own cache build had loaded from the log), queued, and delivered and logged a
+    second time by the finalize handler. Replay (component `stage`, corpus case of
+    harness/stage_gen.go): prepare a 2 0 / recv a - - 2 b1.2 0 2 1.2 0 / settle 0 / consume a /
+    prepare a 2 1 / `cut 3 recv a - - 2 b1.2 0 2 1.2 1` / recover 5 / settle 6 / observe:
+    before the repair `final{a=1.2}` again and two log lines (oracle `delivered-twice`). -/
+theorem logged_delivered_again_orig :
     let s := runEvs Hs init againRun
-    let t := recovered Hs s 5 ["a"]
+    let t := run (crash s) (recoverEffectsOrig Hs (crash s) 5 ["a"])
     s.disk.log = [⟨"a", "", "[1, 2]", 2, 0, ""⟩] ∧ s.disk.final "a" = some 0 ∧
     s.disk.wait "a" = none ∧
     crashClass Hs s.disk "a" = .revalidate ⟨"", "", 2, "[1, 2]", [⟨0, 2⟩]⟩ ∧
@@ -611,14 +695,81 @@ theorem logged_delivered_again :
     (step Hs t (.op (.finh "a" 6))).disk.log.length = 2 ∧
     (step Hs t (.op (.finh "a" 6))).disk.final "a" = some 1 := by decide
 
+/-- … and the same crash image after the repair: the version is remembered, the staged duplicate
+    and its companion are removed, nothing is queued, the answer is "passed", one log line. -/
+theorem logged_duplicate_dropped :
+    let s := runEvs Hs init againRun
+    let t := recovered Hs s 5 ["a"]
+    crashClass Hs s.disk "a" = .revalidate ⟨"", "", 2, "[1, 2]", [⟨0, 2⟩]⟩ ∧
+    Remembered Hs s 5 ["a"] "a" ⟨"", "", 2, "[1, 2]", [⟨0, 2⟩]⟩ ∧
+    t.mem.fq = [] ∧ t.disk.full "a" = none ∧ t.disk.part "a" = none ∧ t.disk.cmp "a" = none ∧
+    statusAnswer t "a" = 2 ∧ t.disk.log.length = 1 ∧ t.disk.final "a" = some 0 := by
+  refine ⟨by decide, ?_, by decide, by decide, by decide, by decide, by decide, by decide, by decide⟩
+  unfold Remembered
+  decide
+
+def c6MetaA2 : Meta := { renamed := "", prev := "", size := 2, hash := "[3, 4]" }
+
+/-- version [1, 2] of "a" is delivered, then version [3, 4]; the last part of [3, 4] arrives again
+    and the receiver dies after the companion's rename. -/
+def againTwoRun : List Ev := goodRun ++
+  [.op (.prepare "a" 2 1), .op (.recvOpen 3 "a"), .op (.recvWrite 3 0 [3, 4] 1),
+   .op (.record "a" c6MetaA2 0 2 1), .op (.process "a" 1), .op (.finh "a" 1),
+   .op (.prepare "a" 2 2), .op (.recvOpen 4 "a"), .op (.recvWrite 4 0 [3, 4] 2),
+   .cutOp 2 (.record "a" c6MetaA2 0 2 2)]
+
+/-- **witness of the second defect (buildCache as found, duplicate branch repaired:
+    `recoverEffectsG true false`)**: buildCache kept the FIRST record of a name, so after the
+    restart the cache said "a is logged with hash [1, 2]"; the staged duplicate of the LATEST
+    delivered version [3, 4] was not recognised, validated again, and delivered and logged a
+    second time. Found by the harness oracle `logged-twice` (quick tier, seed 2) on the real
+    receiver after the first repair. With `fix:` "buildCache kept the oldest of several records
+    of a name" the latest record wins and the duplicate is dropped (second half). Replay
+    (component `stage`, in the corpus): prepare a 2 0 / recv a … b1.2 … / settle 0 / prepare a 2 0
+    / recv a … b3.4 … / settle 0 / prepare a 2 0 / `cut 3 recv a - - 2 b3.4 0 2 3.4 0` /
+    recover 0 / settle 0 / observe. -/
+theorem logged_delivered_again_stale_cache_orig :
+    let s := runEvs Hs init againTwoRun
+    s.disk.log.map (·.hash) = ["[1, 2]", "[3, 4]"] ∧
+    crashClass Hs s.disk "a" = .revalidate ⟨"", "", 2, "[3, 4]", [⟨0, 2⟩]⟩ ∧
+    (let t := run (crash s) (recoverEffectsG true false Hs (crash s) 5 ["a"])
+     (t.mem.cache "a").map (·.hash) = some "[3, 4]" ∧
+     t.mem.fq.map (fun x => (x.1, x.2.hash)) = [("a", "[3, 4]")] ∧
+     (step Hs t (.op (.finh "a" 6))).disk.log.length = 3) ∧
+    (let t := recovered Hs s 5 ["a"]
+     t.mem.fq = [] ∧ t.disk.part "a" = none ∧ t.disk.full "a" = none ∧ t.disk.cmp "a" = none ∧
+     (t.mem.cache "a").map (fun e => (e.state, e.hash)) = some (.logged, "[3, 4]") ∧
+     statusAnswer t "a" = 2 ∧ t.disk.log.length = 2) := by decide
+
+/-- the same duplicate reception ten days after the delivery: the record of "a" is older than
+    the days Recover's cache build reads (oldest companion − 1 day … now). -/
+def againOldRun : List Ev := goodRun ++
+  [.op (.prepare "a" 2 864000), .op (.recvOpen 3 "a"), .op (.recvWrite 3 0 [1, 2] 864000),
+   .cutOp 2 (.record "a" metaA 0 2 864000)]
+
+/-- **witness, (N3) after the repair**: the hypothesis `Remembered` is needed — a version whose
+    log record is older than the cache reaches is validated, logged and delivered again (this is
+    the receiver's cache ageing, C05 `Remembered`; `Receive` takes such a version again, too). -/
+theorem logged_delivered_again_unremembered :
+    let s := runEvs Hs init againOldRun
+    let t := recovered Hs s 864001 ["a"]
+    s.disk.log = [⟨"a", "", "[1, 2]", 2, 0, ""⟩] ∧ s.disk.wait "a" = none ∧
+    crashClass Hs s.disk "a" = .revalidate ⟨"", "", 2, "[1, 2]", [⟨0, 2⟩]⟩ ∧
+    ¬ Remembered Hs s 864001 ["a"] "a" ⟨"", "", 2, "[1, 2]", [⟨0, 2⟩]⟩ ∧
+    t.mem.fq.map (fun x => (x.1, x.2.hash)) = [("a", "[1, 2]")] ∧
+    (step Hs t (.op (.finh "a" 864002))).disk.log.length = 2 := by
+  refine ⟨by decide, by decide, by decide, ?_, by decide, by decide⟩
+  unfold Remembered
+  decide
+
 theorem C06N3_false : ¬ C06N3 := by
   intro h
-  have h1 := (h Hs (runEvs Hs init againRun) ⟨againRun, rfl⟩ 5 ["a"] "a" (by simp) (by simp)
+  have h1 := (h Hs (runEvs Hs init againOldRun) ⟨againOldRun, rfl⟩ 864001 ["a"] "a" (by simp) (by simp)
     ⟨"a", "", "[1, 2]", 2, 0, ""⟩ (by decide) rfl).1
-    { renamed := "", prev := "", hash := "[1, 2]", size := 2, state := .validated, time := 5 }
+    { renamed := "", prev := "", hash := "[1, 2]", size := 2, state := .validated, time := 864001 }
     (by decide) rfl
   obtain ⟨i, hi, _⟩ := h1
-  have hw : (runEvs Hs init againRun).disk.wait "a" = none := by decide
+  have hw : (runEvs Hs init againOldRun).disk.wait "a" = none := by decide
   rw [hw] at hi
   cases hi
 
@@ -649,13 +800,14 @@ theorem dup_names_break_validate :
     (1) the class at the crash point decides the condition (A) / (B) / (C);
     (2) with `Accompanied`, (A) is as stated in the property;
     (3) (N1) under the companion clause; (4) (N2) for the recovered state and all its OK
-    continuations; (5) (N3) unless a complete reception of the logged version is staged. -/
+    continuations; (5) (N3) provided a staged complete reception of the logged version is
+    remembered by Recover's cache build. -/
 theorem C06_classification_partial {H : Body → String} {s : State} (hok : ReachableOk H s)
     (hrec : RecReachableOk H s) (now : Int) (names : List Name) (n : Name) (hn : n ∈ names)
     (hnd : names.Nodup) :
     (match crashClass H s.disk n with
       | .partial_ => ClassA H (recovered H s now names) n
-      | .revalidate c => ClassB H s (recovered H s now names) n c
+      | .revalidate c => ClassB H s (recovered H s now names) now names n c
       | .held c => OutHeld H (recovered H s now names) n c) ∧
     (crashClass H s.disk n = .partial_ → Accompanied H s.disk n →
       ClassAFull (recovered H s now names) n) ∧
@@ -666,7 +818,8 @@ theorem C06_classification_partial {H : Body → String} {s : State} (hok : Reac
       (runEvs H (recovered H s now names) evs).disk.final t = some i →
       ∃ r ∈ (runEvs H (recovered H s now names) evs).disk.log,
         targetOf r.name r.renamed = t ∧ H ((runEvs H (recovered H s now names) evs).disk.body i) = r.hash) ∧
-    (∀ r ∈ s.disk.log, r.name = n → (∀ c, crashClass H s.disk n = .revalidate c → c.hash ≠ r.hash) →
+    (∀ r ∈ s.disk.log, r.name = n →
+      (∀ c, crashClass H s.disk n = .revalidate c → c.hash = r.hash → Remembered H s now names n c) →
       (∀ q, (n, q) ∈ (recovered H s now names).mem.fq → q.hash = r.hash →
         ∃ i, s.disk.wait n = some i ∧ H (s.disk.body i) = r.hash) ∧
       (crashClass H s.disk n = .partial_ → ∀ now2 frm, Reaches s now frm names r →
@@ -675,7 +828,7 @@ theorem C06_classification_partial {H : Body → String} {s : State} (hok : Reac
    fun hcls hacc => classA_full_partial hrec now names n hn hnd hcls hacc,
    fun e hce hans hcomp => C06_N1_partial hok now names n hn hnd e hce hans hcomp,
    fun evs hevs => C06_N2_after_recovery hok now names evs hevs,
-   fun r hr hrn hnv => C06_N3_partial H s now names n hn hnd r hr hrn hnv⟩
+   fun r hr hrn hrem => C06_N3_partial H s now names n hn hnd r hr hrn hrem⟩
 
 /-! ## non-vacuity: one concrete run per class, each with a crash INSIDE an operation -/
 
